@@ -453,6 +453,17 @@ impl Ctx {
         S::Value: Serialize + DeserializeOwned + Debug + Clone,
         F: Fn(&S::Value) -> CaseResult,
     {
+        self.run_prop_opts(name, cases, 4000, strategy, f);
+    }
+
+    /// As `run_prop` with an explicit bound on shrink iterations (use a small bound where a
+    /// failing execution is expensive or not reproducible, e.g. real-thread deadlocks).
+    pub fn run_prop_opts<S, F>(&self, name: &str, cases: u32, max_shrink_iters: u32, strategy: S, f: F)
+    where
+        S: Strategy,
+        S::Value: Serialize + DeserializeOwned + Debug + Clone,
+        F: Fn(&S::Value) -> CaseResult,
+    {
         if let Some(rp) = &self.replay {
             // replay mode: only run if the file is for this sub-check
             let txt = std::fs::read_to_string(rp).expect("replay file");
@@ -483,7 +494,7 @@ impl Ctx {
         let config = Config {
             cases,
             failure_persistence: None,
-            max_shrink_iters: 4000,
+            max_shrink_iters,
             max_global_rejects: 1_000_000,
             ..Config::default()
         };
